@@ -215,6 +215,10 @@ func runStr(c *lib.Ctx, cs caseT) {
 				c.PredFail(id, "quote-not-a-json-literal-of-its-argument", what("= %q, encoding/json reads %q (%v)", o.out, back, err), cs)
 			}
 		}
+		if !utf8.Valid(o.out) {
+			// a JSON string literal is UTF-8 text whatever bytes went in (invalid bytes are to be written as \ufffd)
+			c.PredFail(id, "quote-output-not-valid-utf8", what("= %q", o.out), cs)
+		}
 		u := runOp(1, o.out)
 		want := s
 		if !utf8.Valid(s) {
